@@ -21,7 +21,7 @@ CLAIMED = {
    design="5/C08"),
  "C10": dict(
    text="Coq theorems over ALL schema trees, ALL records over any element type, ANY per-field decoder: value(name k) = the k entry of value(whole) whenever the whole decodes; Row.values = the values of the top-level properties in schema order; an index at or beyond the count is IndexError; a child's raw bytes are the corresponding slice of its parent's; LAZINESS as non-interference: two records that agree on the byte range of the location reached (and produce the same tree) give the same value INCLUDING error status, and a field's value is the decoder applied to its own bytes and nothing else; the location tree depends on the record only through the ODO counters. The value-level model is proved to erase to C01's layout model. DNav and WBNav families restate C15 / C09. "
-        "PARTIAL: index commutation is proved for items without $ref/ODO (the full statement is kept as a Definition), raw containment for $ref children is checked by the judge only. Correspondence on records with 0-3 corrupted numeric fields, every path, with a log of the byte slices each value() call read.",
+        "Index commutation (value(index i) = i-th element of value(whole)), raw containment incl. $ref children, and unconditional laziness are proved for every schema satisfying the decidable predicate cobol_like (a $ref only as a property naming an earlier oneOf alternative of the same object; distinct anchors) and, with no schema condition left, for every COBOL-built schema of a C01-well-formed tree (C10_commute_index_cobol, C10_raw_name_cobol, C10_lazy_cobol). Correspondence on records with 0-3 corrupted numeric fields, every path, with a log of the byte slices each value() call read.",
    note="Per-field decoder in the judge = C02's model. Known findings K-index-odo-value and K-negative-index (NDNav.index accepts negative ints), both with refutation theorems.",
    technique="Coq proof by mutual induction over location trees (frame lemma for non-interference, fuel-stable $ref resolution) + sampled differential correspondence with a decode-slice log",
    design="5/C10"),
